@@ -690,7 +690,8 @@ impl NodeId {
     ///
     /// # Panics
     ///
-    /// Panics if the arena already has `usize::max_value()` nodes.
+    /// Panics if the arena already has `usize::max_value()` nodes, or if
+    /// `self` is [`remove`]d.
     ///
     /// # Examples
     ///
@@ -715,7 +716,12 @@ impl NodeId {
     /// assert_eq!(iter.next(), None);
     /// ```
     /// [`append`]: struct.NodeId.html#method.append
+    /// [`remove`]: struct.NodeId.html#method.remove
     pub fn append_value<T>(self, value: T, arena: &mut Arena<T>) -> NodeId {
+        assert!(
+            !arena[self].is_removed(),
+            "Preconditions not met: removed node cannot have any children"
+        );
         let new_child = arena.new_node(value);
         self.append_new_node_unchecked(new_child, arena);
 
